@@ -130,6 +130,560 @@ pub mod p16 {
 }
 
 #[allow(unused, non_snake_case, clippy::all)]
+pub mod p24 {
+   use ascent::*;
+   use ascent::aggregators::*;
+   use ascent::lattice::{Dual, set::Set};
+   use crate::common::*;
+   ascent! {
+      pub struct Prog;
+      relation r0(i64);
+      relation r1(i64, i64, i64);
+      relation r2(i64, i64);
+      relation r3(i64, i64);
+      relation r4(i64, i64, i64);
+      relation r5(i64, i64);
+      r1(v0, v1, v9) <-- let v9 = 1, r5(v0, v1), r3(v1, v9);
+      r3(((*v1) + 1), (v2 + 1)) <-- r2(v0, v1) if ((*v1) < 6) let v2 = ((*v1) + 1), let v3 = ((*v1) + 2), if ((*v1) < 6), if (v2 < 6);
+      r2(v2, v2) <-- r5(v0, 3), if ((*v0) <= 6), r1(((*v0) + 0), v0, v1), r1(((*v0) + 0), v1, v1) if ((*v1) != 4), if let Some(v2) = Some((*v1)), if (v2 <= 6);
+   }
+   pub struct Inst { p: Prog, pool: Option<ascent::rayon::ThreadPool> }
+   pub fn make(pool: Option<usize>) -> Box<dyn Driver> {
+      let pool = pool.map(|n| ascent::rayon::ThreadPoolBuilder::new().num_threads(n).build().unwrap());
+      let p = match &pool { Some(pl) => pl.install(|| Default::default()), None => Default::default() };
+      Box::new(Inst { p, pool })
+   }
+   impl Driver for Inst {
+      fn load(&mut self, rel: usize, rows: &[Sexp], append: bool) -> Option<()> {
+         match rel {
+         0 => { let v: Vec<(i64,)> = parse_rows(rows)?; if append { self.p.r0.extend(v) } else { self.p.r0 = v } },
+         1 => { let v: Vec<(i64,i64,i64,)> = parse_rows(rows)?; if append { self.p.r1.extend(v) } else { self.p.r1 = v } },
+         2 => { let v: Vec<(i64,i64,)> = parse_rows(rows)?; if append { self.p.r2.extend(v) } else { self.p.r2 = v } },
+         3 => { let v: Vec<(i64,i64,)> = parse_rows(rows)?; if append { self.p.r3.extend(v) } else { self.p.r3 = v } },
+         4 => { let v: Vec<(i64,i64,i64,)> = parse_rows(rows)?; if append { self.p.r4.extend(v) } else { self.p.r4 = v } },
+         5 => { let v: Vec<(i64,i64,)> = parse_rows(rows)?; if append { self.p.r5.extend(v) } else { self.p.r5 = v } },
+            _ => return None,
+         }
+         Some(())
+      }
+      fn run(&mut self) { match &self.pool { Some(pl) => { let p = &mut self.p; pl.install(|| p.run()) }, None => self.p.run() } }
+      fn run_here(&mut self) { self.p.run() }
+      fn run_timeout(&mut self, k: usize) -> Option<bool> { let _ = k; None }
+      fn dump(&self) -> String { vec![dump_rel(0, self.p.r0.iter().map(Row::render).collect()), dump_rel(1, self.p.r1.iter().map(Row::render).collect()), dump_rel(2, self.p.r2.iter().map(Row::render).collect()), dump_rel(3, self.p.r3.iter().map(Row::render).collect()), dump_rel(4, self.p.r4.iter().map(Row::render).collect()), dump_rel(5, self.p.r5.iter().map(Row::render).collect())].join(" | ") }
+      fn iters(&self) -> String { format!("iters {}", self.p.scc_iters.iter().map(|x| x.to_string()).collect::<Vec<_>>().join(" ")) }
+   }
+}
+
+#[allow(unused, non_snake_case, clippy::all)]
+pub mod p32 {
+   use ascent::*;
+   use ascent::aggregators::*;
+   use ascent::lattice::{Dual, set::Set};
+   use crate::common::*;
+   ascent! {
+      pub struct Prog;
+      relation r0(i64, i64, i64);
+      relation r1(i64, i64, i64);
+      relation r2(i64, i64);
+      r1(v2, ((*v1) + 1), v0) <-- r0(v0, v1, v2), if ((*v0) <= 0), if ((*v1) < 6);
+      r2(v1, 3) <-- r1(v0, v1, v2), r1(v0, v2, v3), if ((*v2) != 0);
+      r2(v0, v1) <-- r2(v0, v1) if ((*v0) < 5), r2(v1, v2) if ((*v2) != (*v1));
+      r1(v0, v1, v2) <-- r2(v0, v1), r2(((*v0) + 1), v2);
+      r2(v5, v4) <-- r2(v0, 3) if ((*v0) != 4), r0(v1, v2, v3), r1(v4, v5, v1);
+   }
+   pub struct Inst { p: Prog, pool: Option<ascent::rayon::ThreadPool> }
+   pub fn make(pool: Option<usize>) -> Box<dyn Driver> {
+      let pool = pool.map(|n| ascent::rayon::ThreadPoolBuilder::new().num_threads(n).build().unwrap());
+      let p = match &pool { Some(pl) => pl.install(|| Default::default()), None => Default::default() };
+      Box::new(Inst { p, pool })
+   }
+   impl Driver for Inst {
+      fn load(&mut self, rel: usize, rows: &[Sexp], append: bool) -> Option<()> {
+         match rel {
+         0 => { let v: Vec<(i64,i64,i64,)> = parse_rows(rows)?; if append { self.p.r0.extend(v) } else { self.p.r0 = v } },
+         1 => { let v: Vec<(i64,i64,i64,)> = parse_rows(rows)?; if append { self.p.r1.extend(v) } else { self.p.r1 = v } },
+         2 => { let v: Vec<(i64,i64,)> = parse_rows(rows)?; if append { self.p.r2.extend(v) } else { self.p.r2 = v } },
+            _ => return None,
+         }
+         Some(())
+      }
+      fn run(&mut self) { match &self.pool { Some(pl) => { let p = &mut self.p; pl.install(|| p.run()) }, None => self.p.run() } }
+      fn run_here(&mut self) { self.p.run() }
+      fn run_timeout(&mut self, k: usize) -> Option<bool> { let _ = k; None }
+      fn dump(&self) -> String { vec![dump_rel(0, self.p.r0.iter().map(Row::render).collect()), dump_rel(1, self.p.r1.iter().map(Row::render).collect()), dump_rel(2, self.p.r2.iter().map(Row::render).collect())].join(" | ") }
+      fn iters(&self) -> String { format!("iters {}", self.p.scc_iters.iter().map(|x| x.to_string()).collect::<Vec<_>>().join(" ")) }
+   }
+}
+
+#[allow(unused, non_snake_case, clippy::all)]
+pub mod p40 {
+   use ascent::*;
+   use ascent::aggregators::*;
+   use ascent::lattice::{Dual, set::Set};
+   use crate::common::*;
+   ascent! {
+      pub struct Prog;
+      relation r0(i64, i64);
+      relation r1(i64, i64);
+      relation r2(i64);
+      relation r3(i64);
+      relation r4(i64, i64, i64);
+      r2(v1) <-- r1(1, v0) if ((*v0) < 5) let v1 = ((*v0) + 0), r1(v0, v2), if (v1 <= 6);
+      r3(0) <-- r2(0);
+      r4(v0, (v0 + 1), v0) <-- if let Some(v0) = Some(2), r3(v0), r2(v0), if (v0 <= 6), if (v0 < 6);
+      r4(v0, v1, v2) <-- r1(v0, v1), r0(((*v0) + 1), v2);
+      r2(((*v2) + 1)) <-- if let Some(v0) = Some(1), r0(0, v0), r0(v1, v2), if let Some(v3) = Some(((*v1) + 2)), if ((*v2) < 6);
+      r2(v0) <-- r3(v0);
+      r2(v2) <-- r4(v0, 1, v1) if ((*v1) != 4) let v2 = ((*v0) + 0), r1(v3, 3) if ((*v3) != 1) let v4 = ((*v3) + 0), if (v2 <= 6);
+      r0(((*v0) + 1), v1) <-- r0(v0, v1), if ((*v0) < 6);
+   }
+   pub struct Inst { p: Prog, pool: Option<ascent::rayon::ThreadPool> }
+   pub fn make(pool: Option<usize>) -> Box<dyn Driver> {
+      let pool = pool.map(|n| ascent::rayon::ThreadPoolBuilder::new().num_threads(n).build().unwrap());
+      let p = match &pool { Some(pl) => pl.install(|| Default::default()), None => Default::default() };
+      Box::new(Inst { p, pool })
+   }
+   impl Driver for Inst {
+      fn load(&mut self, rel: usize, rows: &[Sexp], append: bool) -> Option<()> {
+         match rel {
+         0 => { let v: Vec<(i64,i64,)> = parse_rows(rows)?; if append { self.p.r0.extend(v) } else { self.p.r0 = v } },
+         1 => { let v: Vec<(i64,i64,)> = parse_rows(rows)?; if append { self.p.r1.extend(v) } else { self.p.r1 = v } },
+         2 => { let v: Vec<(i64,)> = parse_rows(rows)?; if append { self.p.r2.extend(v) } else { self.p.r2 = v } },
+         3 => { let v: Vec<(i64,)> = parse_rows(rows)?; if append { self.p.r3.extend(v) } else { self.p.r3 = v } },
+         4 => { let v: Vec<(i64,i64,i64,)> = parse_rows(rows)?; if append { self.p.r4.extend(v) } else { self.p.r4 = v } },
+            _ => return None,
+         }
+         Some(())
+      }
+      fn run(&mut self) { match &self.pool { Some(pl) => { let p = &mut self.p; pl.install(|| p.run()) }, None => self.p.run() } }
+      fn run_here(&mut self) { self.p.run() }
+      fn run_timeout(&mut self, k: usize) -> Option<bool> { let _ = k; None }
+      fn dump(&self) -> String { vec![dump_rel(0, self.p.r0.iter().map(Row::render).collect()), dump_rel(1, self.p.r1.iter().map(Row::render).collect()), dump_rel(2, self.p.r2.iter().map(Row::render).collect()), dump_rel(3, self.p.r3.iter().map(Row::render).collect()), dump_rel(4, self.p.r4.iter().map(Row::render).collect())].join(" | ") }
+      fn iters(&self) -> String { format!("iters {}", self.p.scc_iters.iter().map(|x| x.to_string()).collect::<Vec<_>>().join(" ")) }
+   }
+}
+
+#[allow(unused, non_snake_case, clippy::all)]
+pub mod p48 {
+   use ascent::*;
+   use ascent::aggregators::*;
+   use ascent::lattice::{Dual, set::Set};
+   use crate::common::*;
+   ascent! {
+      pub struct Prog;
+      relation r0(i64);
+      relation r1(i64, i64);
+      relation r2(i64, i64);
+      relation r3(i64, i64);
+      relation r4(i64, i64);
+      relation r5(i64, i64, i64);
+      r4(v0, v1) <-- r1(v0, v1);
+      r4(v1, ((*v0) + 1)) <-- r4(v0, 3), r1(v1, v0), if ((*v0) < 6);
+      r5(v0, v2, v3) <-- r1(v0, v1), r3(v1, v2), r3(v2, v3);
+      r4(v0, v2) <-- r4(v0, v1), r1(v1, v2), r1(v2, v3);
+      r4(v2, v1) <-- r4(v0, v1), r2(v2, 0), let v3 = (*v0);
+      r3(((*v2) + 1), v2) <-- r1(2, v0), r5(v1, v0, v2) if ((*v2) < 6), r1(((*v1) + 0), 3) if ((*v1) < 2), if ((*v2) < 6);
+      r4(0, 1) <-- r1(1, 0);
+   }
+   pub struct Inst { p: Prog, pool: Option<ascent::rayon::ThreadPool> }
+   pub fn make(pool: Option<usize>) -> Box<dyn Driver> {
+      let pool = pool.map(|n| ascent::rayon::ThreadPoolBuilder::new().num_threads(n).build().unwrap());
+      let p = match &pool { Some(pl) => pl.install(|| Default::default()), None => Default::default() };
+      Box::new(Inst { p, pool })
+   }
+   impl Driver for Inst {
+      fn load(&mut self, rel: usize, rows: &[Sexp], append: bool) -> Option<()> {
+         match rel {
+         0 => { let v: Vec<(i64,)> = parse_rows(rows)?; if append { self.p.r0.extend(v) } else { self.p.r0 = v } },
+         1 => { let v: Vec<(i64,i64,)> = parse_rows(rows)?; if append { self.p.r1.extend(v) } else { self.p.r1 = v } },
+         2 => { let v: Vec<(i64,i64,)> = parse_rows(rows)?; if append { self.p.r2.extend(v) } else { self.p.r2 = v } },
+         3 => { let v: Vec<(i64,i64,)> = parse_rows(rows)?; if append { self.p.r3.extend(v) } else { self.p.r3 = v } },
+         4 => { let v: Vec<(i64,i64,)> = parse_rows(rows)?; if append { self.p.r4.extend(v) } else { self.p.r4 = v } },
+         5 => { let v: Vec<(i64,i64,i64,)> = parse_rows(rows)?; if append { self.p.r5.extend(v) } else { self.p.r5 = v } },
+            _ => return None,
+         }
+         Some(())
+      }
+      fn run(&mut self) { match &self.pool { Some(pl) => { let p = &mut self.p; pl.install(|| p.run()) }, None => self.p.run() } }
+      fn run_here(&mut self) { self.p.run() }
+      fn run_timeout(&mut self, k: usize) -> Option<bool> { let _ = k; None }
+      fn dump(&self) -> String { vec![dump_rel(0, self.p.r0.iter().map(Row::render).collect()), dump_rel(1, self.p.r1.iter().map(Row::render).collect()), dump_rel(2, self.p.r2.iter().map(Row::render).collect()), dump_rel(3, self.p.r3.iter().map(Row::render).collect()), dump_rel(4, self.p.r4.iter().map(Row::render).collect()), dump_rel(5, self.p.r5.iter().map(Row::render).collect())].join(" | ") }
+      fn iters(&self) -> String { format!("iters {}", self.p.scc_iters.iter().map(|x| x.to_string()).collect::<Vec<_>>().join(" ")) }
+   }
+}
+
+#[allow(unused, non_snake_case, clippy::all)]
+pub mod p56 {
+   use ascent::*;
+   use ascent::aggregators::*;
+   use ascent::lattice::{Dual, set::Set};
+   use crate::common::*;
+   ascent! {
+      pub struct Prog;
+      relation r0(i64, i64, i64);
+      relation r1(i64);
+      relation r2(i64, i64);
+      relation r3(i64, i64, i64);
+      r3(v0, v1, v9) <-- for v9 in 0..4, r2(v0, v1), r2(v9, v1);
+      r2(v1, 2) <-- for v0 in 0..4, r3(v1, v2, v0);
+   }
+   pub struct Inst { p: Prog, pool: Option<ascent::rayon::ThreadPool> }
+   pub fn make(pool: Option<usize>) -> Box<dyn Driver> {
+      let pool = pool.map(|n| ascent::rayon::ThreadPoolBuilder::new().num_threads(n).build().unwrap());
+      let p = match &pool { Some(pl) => pl.install(|| Default::default()), None => Default::default() };
+      Box::new(Inst { p, pool })
+   }
+   impl Driver for Inst {
+      fn load(&mut self, rel: usize, rows: &[Sexp], append: bool) -> Option<()> {
+         match rel {
+         0 => { let v: Vec<(i64,i64,i64,)> = parse_rows(rows)?; if append { self.p.r0.extend(v) } else { self.p.r0 = v } },
+         1 => { let v: Vec<(i64,)> = parse_rows(rows)?; if append { self.p.r1.extend(v) } else { self.p.r1 = v } },
+         2 => { let v: Vec<(i64,i64,)> = parse_rows(rows)?; if append { self.p.r2.extend(v) } else { self.p.r2 = v } },
+         3 => { let v: Vec<(i64,i64,i64,)> = parse_rows(rows)?; if append { self.p.r3.extend(v) } else { self.p.r3 = v } },
+            _ => return None,
+         }
+         Some(())
+      }
+      fn run(&mut self) { match &self.pool { Some(pl) => { let p = &mut self.p; pl.install(|| p.run()) }, None => self.p.run() } }
+      fn run_here(&mut self) { self.p.run() }
+      fn run_timeout(&mut self, k: usize) -> Option<bool> { let _ = k; None }
+      fn dump(&self) -> String { vec![dump_rel(0, self.p.r0.iter().map(Row::render).collect()), dump_rel(1, self.p.r1.iter().map(Row::render).collect()), dump_rel(2, self.p.r2.iter().map(Row::render).collect()), dump_rel(3, self.p.r3.iter().map(Row::render).collect())].join(" | ") }
+      fn iters(&self) -> String { format!("iters {}", self.p.scc_iters.iter().map(|x| x.to_string()).collect::<Vec<_>>().join(" ")) }
+   }
+}
+
+#[allow(unused, non_snake_case, clippy::all)]
+pub mod p64 {
+   use ascent::*;
+   use ascent::aggregators::*;
+   use ascent::lattice::{Dual, set::Set};
+   use crate::common::*;
+   ascent! {
+      pub struct Prog;
+      relation r0(i64, i64, i64);
+      relation r1(i64, i64, i64);
+      relation r2(i64, i64);
+      relation r3(i64);
+      relation r4(i64, i64, i64);
+      relation r5(i64, i64);
+      r2(v1, ((*v2) + 1)) <-- r0(v0, v1, v2), if ((*v2) < 6);
+      r3(3) <-- r2(v0, v1), for v2 in 1..3, r2(v1, (v2 + 1));
+      r2(v0, 2) <-- r3(v0) if ((*v0) <= 1), let v1 = (*v0);
+      r3(v0) <-- r2(v0, v1), r5(v0, v0), r2(v1, v2);
+      r5(v0, v1) <-- r2(v0, v1), r5(v1, v1);
+      r3(1) <-- r3(1);
+      r2(v0, v0) <-- r3(v0), r2(v0, ((*v0) + 1));
+      r5(2, 0);
+   }
+   pub struct Inst { p: Prog, pool: Option<ascent::rayon::ThreadPool> }
+   pub fn make(pool: Option<usize>) -> Box<dyn Driver> {
+      let pool = pool.map(|n| ascent::rayon::ThreadPoolBuilder::new().num_threads(n).build().unwrap());
+      let p = match &pool { Some(pl) => pl.install(|| Default::default()), None => Default::default() };
+      Box::new(Inst { p, pool })
+   }
+   impl Driver for Inst {
+      fn load(&mut self, rel: usize, rows: &[Sexp], append: bool) -> Option<()> {
+         match rel {
+         0 => { let v: Vec<(i64,i64,i64,)> = parse_rows(rows)?; if append { self.p.r0.extend(v) } else { self.p.r0 = v } },
+         1 => { let v: Vec<(i64,i64,i64,)> = parse_rows(rows)?; if append { self.p.r1.extend(v) } else { self.p.r1 = v } },
+         2 => { let v: Vec<(i64,i64,)> = parse_rows(rows)?; if append { self.p.r2.extend(v) } else { self.p.r2 = v } },
+         3 => { let v: Vec<(i64,)> = parse_rows(rows)?; if append { self.p.r3.extend(v) } else { self.p.r3 = v } },
+         4 => { let v: Vec<(i64,i64,i64,)> = parse_rows(rows)?; if append { self.p.r4.extend(v) } else { self.p.r4 = v } },
+         5 => { let v: Vec<(i64,i64,)> = parse_rows(rows)?; if append { self.p.r5.extend(v) } else { self.p.r5 = v } },
+            _ => return None,
+         }
+         Some(())
+      }
+      fn run(&mut self) { match &self.pool { Some(pl) => { let p = &mut self.p; pl.install(|| p.run()) }, None => self.p.run() } }
+      fn run_here(&mut self) { self.p.run() }
+      fn run_timeout(&mut self, k: usize) -> Option<bool> { let _ = k; None }
+      fn dump(&self) -> String { vec![dump_rel(0, self.p.r0.iter().map(Row::render).collect()), dump_rel(1, self.p.r1.iter().map(Row::render).collect()), dump_rel(2, self.p.r2.iter().map(Row::render).collect()), dump_rel(3, self.p.r3.iter().map(Row::render).collect()), dump_rel(4, self.p.r4.iter().map(Row::render).collect()), dump_rel(5, self.p.r5.iter().map(Row::render).collect())].join(" | ") }
+      fn iters(&self) -> String { format!("iters {}", self.p.scc_iters.iter().map(|x| x.to_string()).collect::<Vec<_>>().join(" ")) }
+   }
+}
+
+#[allow(unused, non_snake_case, clippy::all)]
+pub mod p72 {
+   use ascent::*;
+   use ascent::aggregators::*;
+   use ascent::lattice::{Dual, set::Set};
+   use crate::common::*;
+   ascent! {
+      pub struct Prog;
+      relation r0(i64, i64, i64);
+      relation r1(i64, i64);
+      relation r2(i64, i64, i64);
+      relation r3(i64, i64);
+      relation r4(i64, i64);
+      relation r5(i64);
+      r5(v0) <-- r3(v0, v1), r1(v1, v2), r3(v2, v3);
+      r3(0, v2) <-- r2(v0, v1, 0) if ((*v1) != 2), r1(1, v0), r2(v2, v1, ((*v1) + 1)) if ((*v1) <= 5);
+   }
+   pub struct Inst { p: Prog, pool: Option<ascent::rayon::ThreadPool> }
+   pub fn make(pool: Option<usize>) -> Box<dyn Driver> {
+      let pool = pool.map(|n| ascent::rayon::ThreadPoolBuilder::new().num_threads(n).build().unwrap());
+      let p = match &pool { Some(pl) => pl.install(|| Default::default()), None => Default::default() };
+      Box::new(Inst { p, pool })
+   }
+   impl Driver for Inst {
+      fn load(&mut self, rel: usize, rows: &[Sexp], append: bool) -> Option<()> {
+         match rel {
+         0 => { let v: Vec<(i64,i64,i64,)> = parse_rows(rows)?; if append { self.p.r0.extend(v) } else { self.p.r0 = v } },
+         1 => { let v: Vec<(i64,i64,)> = parse_rows(rows)?; if append { self.p.r1.extend(v) } else { self.p.r1 = v } },
+         2 => { let v: Vec<(i64,i64,i64,)> = parse_rows(rows)?; if append { self.p.r2.extend(v) } else { self.p.r2 = v } },
+         3 => { let v: Vec<(i64,i64,)> = parse_rows(rows)?; if append { self.p.r3.extend(v) } else { self.p.r3 = v } },
+         4 => { let v: Vec<(i64,i64,)> = parse_rows(rows)?; if append { self.p.r4.extend(v) } else { self.p.r4 = v } },
+         5 => { let v: Vec<(i64,)> = parse_rows(rows)?; if append { self.p.r5.extend(v) } else { self.p.r5 = v } },
+            _ => return None,
+         }
+         Some(())
+      }
+      fn run(&mut self) { match &self.pool { Some(pl) => { let p = &mut self.p; pl.install(|| p.run()) }, None => self.p.run() } }
+      fn run_here(&mut self) { self.p.run() }
+      fn run_timeout(&mut self, k: usize) -> Option<bool> { let _ = k; None }
+      fn dump(&self) -> String { vec![dump_rel(0, self.p.r0.iter().map(Row::render).collect()), dump_rel(1, self.p.r1.iter().map(Row::render).collect()), dump_rel(2, self.p.r2.iter().map(Row::render).collect()), dump_rel(3, self.p.r3.iter().map(Row::render).collect()), dump_rel(4, self.p.r4.iter().map(Row::render).collect()), dump_rel(5, self.p.r5.iter().map(Row::render).collect())].join(" | ") }
+      fn iters(&self) -> String { format!("iters {}", self.p.scc_iters.iter().map(|x| x.to_string()).collect::<Vec<_>>().join(" ")) }
+   }
+}
+
+#[allow(unused, non_snake_case, clippy::all)]
+pub mod p80 {
+   use ascent::*;
+   use ascent::aggregators::*;
+   use ascent::lattice::{Dual, set::Set};
+   use crate::common::*;
+   ascent! {
+      pub struct Prog;
+      relation r0(i64);
+      relation r1(i64, i64);
+      relation r2(i64, i64, i64);
+      relation r3(i64, i64);
+      relation r4(i64, i64);
+      r1(2, 3) <-- r0(2);
+      r2(v1, v2, 1) <-- r1(v0, v1), if let Some(v2) = Some(0), if (v2 <= 6);
+      r3(v3, ((*v1) + 1)) <-- let v0 = 2, r2(v1, v0, v2), let v3 = 2, r3((v0 + 1), 2) if (v0 < 5), if (v3 <= 6), if ((*v1) < 6);
+      r4(v0, ((*v1) + 1)) <-- r3(v0, v1), if ((*v1) < 6);
+      r1(v0, v2) <-- r1(v0, v1), r3(v1, v2), r4(v2, v3);
+      r3(v0, v1) <-- for v9 in 0..3, r4(v0, v1), r3(v9, v1);
+      r4(0, v1) <-- if let Some(v0) = Some(0), r3((v0 + 0), v1), let v2 = v0;
+      r1(v7, v2) <-- let v0 = 0, r4(v1, v0), if let Some(v2) = Some(3), r2(v3, v4, v2) if (v2 <= 2), r3(v5, v6), if let Some(v7) = None::<i64>, if (v7 <= 6), if (v2 <= 6);
+      r4(v0, v0) <-- for v0 in [3, 4], r4(v0, v0);
+   }
+   pub struct Inst { p: Prog, pool: Option<ascent::rayon::ThreadPool> }
+   pub fn make(pool: Option<usize>) -> Box<dyn Driver> {
+      let pool = pool.map(|n| ascent::rayon::ThreadPoolBuilder::new().num_threads(n).build().unwrap());
+      let p = match &pool { Some(pl) => pl.install(|| Default::default()), None => Default::default() };
+      Box::new(Inst { p, pool })
+   }
+   impl Driver for Inst {
+      fn load(&mut self, rel: usize, rows: &[Sexp], append: bool) -> Option<()> {
+         match rel {
+         0 => { let v: Vec<(i64,)> = parse_rows(rows)?; if append { self.p.r0.extend(v) } else { self.p.r0 = v } },
+         1 => { let v: Vec<(i64,i64,)> = parse_rows(rows)?; if append { self.p.r1.extend(v) } else { self.p.r1 = v } },
+         2 => { let v: Vec<(i64,i64,i64,)> = parse_rows(rows)?; if append { self.p.r2.extend(v) } else { self.p.r2 = v } },
+         3 => { let v: Vec<(i64,i64,)> = parse_rows(rows)?; if append { self.p.r3.extend(v) } else { self.p.r3 = v } },
+         4 => { let v: Vec<(i64,i64,)> = parse_rows(rows)?; if append { self.p.r4.extend(v) } else { self.p.r4 = v } },
+            _ => return None,
+         }
+         Some(())
+      }
+      fn run(&mut self) { match &self.pool { Some(pl) => { let p = &mut self.p; pl.install(|| p.run()) }, None => self.p.run() } }
+      fn run_here(&mut self) { self.p.run() }
+      fn run_timeout(&mut self, k: usize) -> Option<bool> { let _ = k; None }
+      fn dump(&self) -> String { vec![dump_rel(0, self.p.r0.iter().map(Row::render).collect()), dump_rel(1, self.p.r1.iter().map(Row::render).collect()), dump_rel(2, self.p.r2.iter().map(Row::render).collect()), dump_rel(3, self.p.r3.iter().map(Row::render).collect()), dump_rel(4, self.p.r4.iter().map(Row::render).collect())].join(" | ") }
+      fn iters(&self) -> String { format!("iters {}", self.p.scc_iters.iter().map(|x| x.to_string()).collect::<Vec<_>>().join(" ")) }
+   }
+}
+
+#[allow(unused, non_snake_case, clippy::all)]
+pub mod p88 {
+   use ascent::*;
+   use ascent::aggregators::*;
+   use ascent::lattice::{Dual, set::Set};
+   use crate::common::*;
+   ascent! {
+      pub struct Prog;
+      relation r0(i64, i64, i64);
+      relation r1(i64, i64);
+      relation r2(i64, i64, i64);
+      relation r3(i64, i64);
+      relation r4(i64, i64);
+      relation r5(i64, i64);
+      r5(v1, v1) <-- if let Some(v0) = Some(0), r0(v1, 3, v2) if (v0 <= 2) let v3 = ((*v2) + 1);
+      r5(((*v0) + 1), v1) <-- r5(v0, v1), r5(v0, ((*v0) + 0)), if ((*v0) < 6);
+      r5(v0, v1) <-- r5(v0, v1) if ((*v0) < 5), r4(v1, v2) if ((*v2) != (*v1));
+      r2(v1, v1, v1) <-- r1(1, v0) if ((*v0) < 4), r3(v1, 0);
+   }
+   pub struct Inst { p: Prog, pool: Option<ascent::rayon::ThreadPool> }
+   pub fn make(pool: Option<usize>) -> Box<dyn Driver> {
+      let pool = pool.map(|n| ascent::rayon::ThreadPoolBuilder::new().num_threads(n).build().unwrap());
+      let p = match &pool { Some(pl) => pl.install(|| Default::default()), None => Default::default() };
+      Box::new(Inst { p, pool })
+   }
+   impl Driver for Inst {
+      fn load(&mut self, rel: usize, rows: &[Sexp], append: bool) -> Option<()> {
+         match rel {
+         0 => { let v: Vec<(i64,i64,i64,)> = parse_rows(rows)?; if append { self.p.r0.extend(v) } else { self.p.r0 = v } },
+         1 => { let v: Vec<(i64,i64,)> = parse_rows(rows)?; if append { self.p.r1.extend(v) } else { self.p.r1 = v } },
+         2 => { let v: Vec<(i64,i64,i64,)> = parse_rows(rows)?; if append { self.p.r2.extend(v) } else { self.p.r2 = v } },
+         3 => { let v: Vec<(i64,i64,)> = parse_rows(rows)?; if append { self.p.r3.extend(v) } else { self.p.r3 = v } },
+         4 => { let v: Vec<(i64,i64,)> = parse_rows(rows)?; if append { self.p.r4.extend(v) } else { self.p.r4 = v } },
+         5 => { let v: Vec<(i64,i64,)> = parse_rows(rows)?; if append { self.p.r5.extend(v) } else { self.p.r5 = v } },
+            _ => return None,
+         }
+         Some(())
+      }
+      fn run(&mut self) { match &self.pool { Some(pl) => { let p = &mut self.p; pl.install(|| p.run()) }, None => self.p.run() } }
+      fn run_here(&mut self) { self.p.run() }
+      fn run_timeout(&mut self, k: usize) -> Option<bool> { let _ = k; None }
+      fn dump(&self) -> String { vec![dump_rel(0, self.p.r0.iter().map(Row::render).collect()), dump_rel(1, self.p.r1.iter().map(Row::render).collect()), dump_rel(2, self.p.r2.iter().map(Row::render).collect()), dump_rel(3, self.p.r3.iter().map(Row::render).collect()), dump_rel(4, self.p.r4.iter().map(Row::render).collect()), dump_rel(5, self.p.r5.iter().map(Row::render).collect())].join(" | ") }
+      fn iters(&self) -> String { format!("iters {}", self.p.scc_iters.iter().map(|x| x.to_string()).collect::<Vec<_>>().join(" ")) }
+   }
+}
+
+#[allow(unused, non_snake_case, clippy::all)]
+pub mod p96 {
+   use ascent::*;
+   use ascent::aggregators::*;
+   use ascent::lattice::{Dual, set::Set};
+   use crate::common::*;
+   ascent! {
+      pub struct Prog;
+      relation r0(i64);
+      relation r1(i64);
+      relation r2(i64, i64);
+      relation r3(i64, i64);
+      relation r4(i64, i64);
+      relation r5(i64, i64);
+      r2(v0, v0) <-- let v0 = 4, r0(v0), if (v0 <= 6);
+      r3((v0 + 1), v1) <-- if let Some(v0) = Some(1), r0(v1), if (v0 < 6);
+      r4(((*v1) + 1), ((*v0) + 1)) <-- r2(3, 0), r3(v0, v1) if ((*v0) != 1), if ((*v1) < 6), if ((*v0) < 6);
+      r4(v0, v1) <-- r5(v0, v1), r4(v0, v0), r5(v1, v2);
+      r1(v0) <-- if let Some(v0) = Some(2), r1((v0 + 0)), r2((v0 + 0), 2) if (v0 != 6), if (v0 <= 6);
+      r3(((*v1) + 1), v0) <-- for v0 in [2, 3, 1], r3(v0, v1) if ((*v1) < 1), r3(v0, 2), r4(v2, v3) if ((*v1) < 4), if ((*v3) != 5), if ((*v1) < 6);
+      r2(v1, v1) <-- r1(v0), r5(v1, v0) if ((*v1) != 1);
+      r4(0, 0) <-- r1(1);
+   }
+   pub struct Inst { p: Prog, pool: Option<ascent::rayon::ThreadPool> }
+   pub fn make(pool: Option<usize>) -> Box<dyn Driver> {
+      let pool = pool.map(|n| ascent::rayon::ThreadPoolBuilder::new().num_threads(n).build().unwrap());
+      let p = match &pool { Some(pl) => pl.install(|| Default::default()), None => Default::default() };
+      Box::new(Inst { p, pool })
+   }
+   impl Driver for Inst {
+      fn load(&mut self, rel: usize, rows: &[Sexp], append: bool) -> Option<()> {
+         match rel {
+         0 => { let v: Vec<(i64,)> = parse_rows(rows)?; if append { self.p.r0.extend(v) } else { self.p.r0 = v } },
+         1 => { let v: Vec<(i64,)> = parse_rows(rows)?; if append { self.p.r1.extend(v) } else { self.p.r1 = v } },
+         2 => { let v: Vec<(i64,i64,)> = parse_rows(rows)?; if append { self.p.r2.extend(v) } else { self.p.r2 = v } },
+         3 => { let v: Vec<(i64,i64,)> = parse_rows(rows)?; if append { self.p.r3.extend(v) } else { self.p.r3 = v } },
+         4 => { let v: Vec<(i64,i64,)> = parse_rows(rows)?; if append { self.p.r4.extend(v) } else { self.p.r4 = v } },
+         5 => { let v: Vec<(i64,i64,)> = parse_rows(rows)?; if append { self.p.r5.extend(v) } else { self.p.r5 = v } },
+            _ => return None,
+         }
+         Some(())
+      }
+      fn run(&mut self) { match &self.pool { Some(pl) => { let p = &mut self.p; pl.install(|| p.run()) }, None => self.p.run() } }
+      fn run_here(&mut self) { self.p.run() }
+      fn run_timeout(&mut self, k: usize) -> Option<bool> { let _ = k; None }
+      fn dump(&self) -> String { vec![dump_rel(0, self.p.r0.iter().map(Row::render).collect()), dump_rel(1, self.p.r1.iter().map(Row::render).collect()), dump_rel(2, self.p.r2.iter().map(Row::render).collect()), dump_rel(3, self.p.r3.iter().map(Row::render).collect()), dump_rel(4, self.p.r4.iter().map(Row::render).collect()), dump_rel(5, self.p.r5.iter().map(Row::render).collect())].join(" | ") }
+      fn iters(&self) -> String { format!("iters {}", self.p.scc_iters.iter().map(|x| x.to_string()).collect::<Vec<_>>().join(" ")) }
+   }
+}
+
+#[allow(unused, non_snake_case, clippy::all)]
+pub mod p104 {
+   use ascent::*;
+   use ascent::aggregators::*;
+   use ascent::lattice::{Dual, set::Set};
+   use crate::common::*;
+   ascent! {
+      pub struct Prog;
+      relation r0(i64, i64);
+      relation r1(i64, i64);
+      relation r2(i64, i64);
+      relation r3(i64, i64);
+      r1(v2, v0) <-- r0(v0, v1), for v2 in 0..4;
+      r2(v0, v2) <-- r1(v0, v1), for v2 in [2], r2(v0, v3);
+      r3(v2, v1) <-- if let Some(v0) = Some(0), r2(v1, v2), r1(v2, v2);
+      r3(v0, v1) <-- r2(v0, v1) if ((*v0) < 4), r3(v1, v2) if ((*v2) != (*v1));
+      r2(v3, 0) <-- r3(v0, v1) if ((*v0) != 5), r3(v2, v3);
+      r1(2, 0);
+   }
+   pub struct Inst { p: Prog, pool: Option<ascent::rayon::ThreadPool> }
+   pub fn make(pool: Option<usize>) -> Box<dyn Driver> {
+      let pool = pool.map(|n| ascent::rayon::ThreadPoolBuilder::new().num_threads(n).build().unwrap());
+      let p = match &pool { Some(pl) => pl.install(|| Default::default()), None => Default::default() };
+      Box::new(Inst { p, pool })
+   }
+   impl Driver for Inst {
+      fn load(&mut self, rel: usize, rows: &[Sexp], append: bool) -> Option<()> {
+         match rel {
+         0 => { let v: Vec<(i64,i64,)> = parse_rows(rows)?; if append { self.p.r0.extend(v) } else { self.p.r0 = v } },
+         1 => { let v: Vec<(i64,i64,)> = parse_rows(rows)?; if append { self.p.r1.extend(v) } else { self.p.r1 = v } },
+         2 => { let v: Vec<(i64,i64,)> = parse_rows(rows)?; if append { self.p.r2.extend(v) } else { self.p.r2 = v } },
+         3 => { let v: Vec<(i64,i64,)> = parse_rows(rows)?; if append { self.p.r3.extend(v) } else { self.p.r3 = v } },
+            _ => return None,
+         }
+         Some(())
+      }
+      fn run(&mut self) { match &self.pool { Some(pl) => { let p = &mut self.p; pl.install(|| p.run()) }, None => self.p.run() } }
+      fn run_here(&mut self) { self.p.run() }
+      fn run_timeout(&mut self, k: usize) -> Option<bool> { let _ = k; None }
+      fn dump(&self) -> String { vec![dump_rel(0, self.p.r0.iter().map(Row::render).collect()), dump_rel(1, self.p.r1.iter().map(Row::render).collect()), dump_rel(2, self.p.r2.iter().map(Row::render).collect()), dump_rel(3, self.p.r3.iter().map(Row::render).collect())].join(" | ") }
+      fn iters(&self) -> String { format!("iters {}", self.p.scc_iters.iter().map(|x| x.to_string()).collect::<Vec<_>>().join(" ")) }
+   }
+}
+
+#[allow(unused, non_snake_case, clippy::all)]
+pub mod p112 {
+   use ascent::*;
+   use ascent::aggregators::*;
+   use ascent::lattice::{Dual, set::Set};
+   use crate::common::*;
+   ascent! {
+      pub struct Prog;
+      relation r0(i64, i64);
+      relation r1(i64, i64);
+      relation r2(i64, i64);
+      relation r3(i64, i64);
+      relation r4(i64, i64);
+      r1(v0, (v0 + 1)) <-- for v0 in 1..3, r0(v0, v1), if (v0 < 6);
+      r2(v0, v0) <-- r1(v0, v1), if let Some(v2) = Some((*v1)), r4(v0, v3);
+      r1(v1, v2) <-- if let Some(v0) = Some(0), r2(v1, v2), for v3 in 2..2;
+      r2(v0, v1) <-- r4(v0, v1), r3(v0, v0), r4(v1, v2);
+      r2(v0, v1) <-- let v9 = 0, r3(v0, v1), r3(v1, v9);
+      r0(v3, ((*v1) + 1)) <-- if let Some(v0) = Some(3), r2(v0, v1), r1((v0 + 1), v2) if ((*v2) <= 2), r3(v3, v0), if ((*v1) < 6);
+      r2(v0, v0) <-- for v0 in 2..2, r0(v0, 3);
+      r4(2, v0) <-- if let Some(v0) = None::<i64>, r2(v0, v0), if (v0 <= 6);
+   }
+   pub struct Inst { p: Prog, pool: Option<ascent::rayon::ThreadPool> }
+   pub fn make(pool: Option<usize>) -> Box<dyn Driver> {
+      let pool = pool.map(|n| ascent::rayon::ThreadPoolBuilder::new().num_threads(n).build().unwrap());
+      let p = match &pool { Some(pl) => pl.install(|| Default::default()), None => Default::default() };
+      Box::new(Inst { p, pool })
+   }
+   impl Driver for Inst {
+      fn load(&mut self, rel: usize, rows: &[Sexp], append: bool) -> Option<()> {
+         match rel {
+         0 => { let v: Vec<(i64,i64,)> = parse_rows(rows)?; if append { self.p.r0.extend(v) } else { self.p.r0 = v } },
+         1 => { let v: Vec<(i64,i64,)> = parse_rows(rows)?; if append { self.p.r1.extend(v) } else { self.p.r1 = v } },
+         2 => { let v: Vec<(i64,i64,)> = parse_rows(rows)?; if append { self.p.r2.extend(v) } else { self.p.r2 = v } },
+         3 => { let v: Vec<(i64,i64,)> = parse_rows(rows)?; if append { self.p.r3.extend(v) } else { self.p.r3 = v } },
+         4 => { let v: Vec<(i64,i64,)> = parse_rows(rows)?; if append { self.p.r4.extend(v) } else { self.p.r4 = v } },
+            _ => return None,
+         }
+         Some(())
+      }
+      fn run(&mut self) { match &self.pool { Some(pl) => { let p = &mut self.p; pl.install(|| p.run()) }, None => self.p.run() } }
+      fn run_here(&mut self) { self.p.run() }
+      fn run_timeout(&mut self, k: usize) -> Option<bool> { let _ = k; None }
+      fn dump(&self) -> String { vec![dump_rel(0, self.p.r0.iter().map(Row::render).collect()), dump_rel(1, self.p.r1.iter().map(Row::render).collect()), dump_rel(2, self.p.r2.iter().map(Row::render).collect()), dump_rel(3, self.p.r3.iter().map(Row::render).collect()), dump_rel(4, self.p.r4.iter().map(Row::render).collect())].join(" | ") }
+      fn iters(&self) -> String { format!("iters {}", self.p.scc_iters.iter().map(|x| x.to_string()).collect::<Vec<_>>().join(" ")) }
+   }
+}
+
+#[allow(unused, non_snake_case, clippy::all)]
 pub mod c0 {
    use ascent::*;
    use ascent::aggregators::*;
@@ -169,5 +723,5 @@ pub mod c0 {
 }
 
 fn main() {
-   common::main_loop(&[("p0", p0::make as common::Factory), ("p8", p8::make as common::Factory), ("p16", p16::make as common::Factory), ("c0", c0::make as common::Factory)]);
+   common::main_loop(&[("p0", p0::make as common::Factory), ("p8", p8::make as common::Factory), ("p16", p16::make as common::Factory), ("p24", p24::make as common::Factory), ("p32", p32::make as common::Factory), ("p40", p40::make as common::Factory), ("p48", p48::make as common::Factory), ("p56", p56::make as common::Factory), ("p64", p64::make as common::Factory), ("p72", p72::make as common::Factory), ("p80", p80::make as common::Factory), ("p88", p88::make as common::Factory), ("p96", p96::make as common::Factory), ("p104", p104::make as common::Factory), ("p112", p112::make as common::Factory), ("c0", c0::make as common::Factory)]);
 }
